@@ -40,7 +40,7 @@ func init() {
 				}
 				reps := 6
 				if d.Thorough() {
-					reps = 60
+					reps = 400
 				}
 				for r := 0; r < reps; r++ {
 					fl := d.R.Intn(t.flags)
@@ -99,7 +99,7 @@ func init() {
 		}
 		nh := 30
 		if d.Thorough() {
-			nh = 1500
+			nh = 25000
 		}
 		for gi, g := range gens {
 			for h := 0; h < nh; h++ {
